@@ -266,6 +266,20 @@ def run_selection(case):
                 pb = p.encode("latin-1")
                 if scen._clear_path(fs, d, pb):
                     fs.write(d, pb, A.gen_bytes(rng, rng.randint(1, 3000), "rand"))
+        # symbolic links, pointing to something that exists and to nothing (dangling): for the selection a link is an entry
+        # like any other - present or missing by its own name, whatever it points to
+        links = {}
+        tops = [p for p in paths if "/" not in p] or paths
+        for d in a.disks:
+            for k_ in range(rng.randint(2, 4)):
+                nm = "%s%d" % (gen_name(rng), k_)
+                ln = (rng.choice(dirs) + "/" + nm) if dirs and rng.random() < 0.5 else nm
+                lb = ln.encode("latin-1")
+                if ln in paths or any(q.startswith(ln + "/") for q in paths) or not scen._clear_path(fs, d, lb):
+                    continue
+                tgt = rng.choice([os.path.join(a.ddir(d), rng.choice(tops)).encode("latin-1"), b"no-such-target-%d" % k_])
+                fs.symlink(d, lb, tgt)
+                links[(d, ln)] = tgt
         r = a.cmd("sync", variant=variant)
         if r.rc != 0:
             raise scen.CaseError("sync failed")
@@ -281,6 +295,9 @@ def run_selection(case):
                 deleted.add((d, sl))
         if whole_dir:
             shutil.rmtree(fs.path(d_del, ext_dir.encode("latin-1")), ignore_errors=True)
+            for (d, ln) in links:
+                if d == d_del and ln.startswith(ext_dir + "/"):
+                    deleted.add((d, ln))
         if not deleted:
             res["inconclusive"] = "nothing deleted"
             return res
@@ -295,8 +312,22 @@ def run_selection(case):
                 with open(fs.path(d, s), "wb") as f:
                     f.write(A.gen_bytes(rng, rng.randint(1, 3000), "rand"))
                 modified.add((d, sl))
+        # links of that disk: removed, or re-pointed (to another existing file / to another name that does not exist)
+        for (d, ln), tgt in sorted(links.items()):
+            if d != d_del or not os.path.islink(fs.path(d, ln.encode("latin-1"))):
+                continue
+            k_ = rng.random()
+            pl = fs.path(d, ln.encode("latin-1"))
+            if k_ < 0.3:
+                os.unlink(pl)
+                deleted.add((d, ln))
+            elif k_ < 0.75:
+                os.unlink(pl)
+                os.symlink(rng.choice([os.path.join(a.ddir(d), rng.choice(tops)).encode("latin-1") + b"x", b"other-missing-target", os.fsencode(a.ddir(d))]), pl)
+                modified.add((d, ln))
+        res["counters"]["links_recorded"] = len(links)
         # selection
-        sel = rng.choice(["f", "d", "m", "fd"])
+        sel = rng.choice(["f", "d", "m", "fd", "m"])
         args = []
         frules = []
         fdisk = None
@@ -340,6 +371,12 @@ def run_selection(case):
             # restored content must be right
             for (d, p) in want:
                 e = state[d][p.encode("latin-1")]
+                if e[0] == "symlink":
+                    pl = fs.path(d, p.encode("latin-1"))
+                    if not os.path.islink(pl) or os.readlink(pl) != e[1]:
+                        res["violations"].append(("fix-wrong-link-under-filter", "%r" % p, rep))
+                        break
+                    continue
                 if e[0] != "file":
                     continue
                 with open(fs.path(d, p.encode("latin-1")), "rb") as f:
